@@ -1183,7 +1183,7 @@ impl Interpreter {
                                 self.active_vm = Some(Box::new(vm));
                             } else {
                                 let guarded = Guarded::from_value(error_msg, &self.heap);
-                                return Err(JsError::thrown(guarded));
+                                return Err(self.materialize_thrown_error(JsError::thrown(guarded)));
                             }
                         }
                     }
@@ -1239,7 +1239,9 @@ impl Interpreter {
                                     self.active_vm = Some(Box::new(vm));
                                 } else {
                                     let guarded = Guarded::from_value(result_value, &self.heap);
-                                    return Err(JsError::thrown(guarded));
+                                    return Err(
+                                        self.materialize_thrown_error(JsError::thrown(guarded))
+                                    );
                                 }
                             }
                             PromiseStatus::Pending => {
